@@ -101,8 +101,9 @@ class Ctx:
             for p in range(n):
                 with warnings.catch_warnings():
                     warnings.simplefilter("ignore")
+                    kw = {} if spin is None else {"spin": spin}      # None: the argument is left at its default
                     q = fermion_to_qubit_mapping(FermionOperator(((p, 1), (p, 0)), 1.0), mapping, n_spinorbitals=n,
-                                                 n_electrons=N, up_then_down=utd, spin=spin)
+                                                 n_electrons=N, up_then_down=utd, **kw)
                 ops.append(P.from_terms(q.terms))
         except Exception as e:
             self.bad("fermion_to_qubit_mapping", f"exception/{type(e).__name__}:{slug(e)}", f"{mapping},n={n},utd={utd}", "",
@@ -186,6 +187,11 @@ def run_ref(cx, case):
         cx.bad("get_reference_circuit", f"exception/{type(e).__name__}:{slug(e)}", sig, "", case, {"err": repr(e)[:300]})
         return
     bits = compare(cx, "get_reference_circuit", case, m, n, utd, N, spin_op, circ, requested, sig, grp)
+    if spin is None and m.upper() == "SCBK":
+        # spin left at its default on both sides (circuit and operators): the documented default filling must still be what the
+        # occupation operators see
+        compare(cx, "get_reference_circuit", dict(case, operators_spin="default"), m, n, utd, N, None, circ, requested,
+                sig + ",operators-with-default-spin", grp)
     if bits is not None:
         acc.out((m, tuple(bits)))
         if list(bits) + [0] * (n - len(bits)) != list(requested):
